@@ -1054,6 +1054,19 @@ def maximal_programs():
     L.append(Line(["\treturn (", vv, " + ", sv, "[0]);"], "stmt", 1, 0, stmt="return"))
     L.append(Line(["}"], "func_close", 0, 0))
     out.append(Prog(name, L, dict(nfuncs=1, maximal="constants of every C form")))
+    # 7. a call followed by SEVERAL member accesses as the target of an assignment whose right-hand side holds separators
+    #    (repaired in d91f532: only one `->member` was skipped, the statement was cut at the first comma and the rest was fatal)
+    name = "mx7.c"
+    lv, av, bv = Slot("id", "lst"), Slot("id", "one"), Slot("id", "two")
+    L = header_lines(name) + [Line([""], "blank")]
+    L.append(Line(["void\t", Slot("fname", "link"), "(t_list *", lv, ", int ", av, ", int ", bv, ")"], "func_sig", 0, 0))
+    L.append(Line(["{"], "func_open", 0, 0))
+    L.append(Line(["\tft_lstlast(", lv, ")->next = new_node(", av, ", ", bv, ");"], "stmt", 1, 0, stmt="assign"))
+    L.append(Line(["\tft_lstlast(", lv, ")->next->prev = new_node(", av, ", ", bv, ");"], "stmt", 1, 0, stmt="assign"))
+    L.append(Line(["\tft_lstlast(", lv, ")->next->next->content = pick(", av, " && ", bv, ", ", av, " || ", bv, ");"], "stmt", 1, 0, stmt="assign"))
+    L.append(Line(["\tft_lstlast(", lv, ")->next->prev->size += ", av, ";"], "stmt", 1, 0, stmt="opassign"))
+    L.append(Line(["}"], "func_close", 0, 0))
+    out.append(Prog(name, L, dict(nfuncs=1, maximal="calls followed by chains of member accesses as assignment targets")))
     for prog in out:
         normalise_indent(prog)
     return out
